@@ -96,3 +96,32 @@ Definition P_hook (cfg : option settings) (starts : list Z) (throttled : bool) :
 
 Definition P_op (hs : hook_settings) (starts : list (N * Z)) (throttled : list N) : bool :=
   forallb (fun h => P_hook (settings_of hs h) (starts_of h starts) (mem_N h throttled)) (map fst hs).
+
+(* ---- instants that are measured late ----
+   A harness sees an execution some time AFTER it started (the hook process has to come up).
+   Windows that begin at an instant [a] known to the observer - chosen so that every start
+   observed at or after [a] really happened at or after [a] - and end at an observed start
+   can be judged all the same: the k-th start observed at or after [a], seen at m, proves
+   that k executions started within [a, m], a window of length m - a:
+       k <= B + (m - a)/I rounded up.
+   This is the property's sentence for these windows (never more); C18_late_observation_sound
+   shows that observing late cannot make it fail. *)
+Fixpoint anchored_from (I B a k : Z) (l : list Z) : bool :=
+  match l with
+  | [] => true
+  | m :: r => (k <=? B + ceil_div (m - a) I) && anchored_from I B a (k + 1) r
+  end.
+Definition anchored_ok (I B a : Z) (starts : list Z) : bool :=
+  anchored_from I B a 1 (filter (fun m => a <=? m) starts).
+
+Definition P_hook_anchored (cfg : option settings) (anchors : list Z) (starts : list Z) : bool :=
+  match cfg with
+  | None => true
+  | Some s =>
+      if (0 <? s_interval s) && (1 <=? s_burst s)
+      then sortedb starts && forallb (fun a => anchored_ok (s_interval s) (s_burst s) a starts) anchors
+      else true
+  end.
+
+Definition P_timed (hs : hook_settings) (anchors : list Z) (starts : list (N * Z)) : bool :=
+  forallb (fun h => P_hook_anchored (settings_of hs h) anchors (starts_of h starts)) (map fst hs).
